@@ -4,7 +4,10 @@
 //! re-use of the functionality elsewhere, and also enable easier testing
 //! without needing to spool up the entire unifier.
 
-use std::collections::{HashSet, VecDeque};
+use std::{
+    collections::{hash_map::DefaultHasher, HashSet, VecDeque},
+    hash::{Hash, Hasher},
+};
 
 use itertools::Itertools;
 
@@ -61,12 +64,13 @@ pub fn unify(state: &mut TypeCheckerState, watchdog: &DynWatchdog) -> Result<()>
     let polling_interval = watchdog.poll_every();
     let mut counter = 0;
 
+    // Evidence that refers back to its own equivalence class (directly, or through a cycle
+    // of classes) can regenerate itself round after round, so we also have to notice when a
+    // round brings the forest back into a state it has already been in.
+    let mut seen_states: HashSet<u64> = HashSet::from([forest_fingerprint(&mut forest)]);
+
     // Then, we loop until we stop making progress.
     loop {
-        // Evidence that refers back to its own equivalence class can regenerate itself on
-        // every round, so we also have to notice when a round leaves the forest as it was.
-        let forest_before_round = forest.clone();
-
         // Create the set of new equalities.
         let mut all_equalities: HashSet<Equality> = HashSet::new();
         let mut all_judgements: HashSet<Judgement> = HashSet::new();
@@ -156,10 +160,10 @@ pub fn unify(state: &mut TypeCheckerState, watchdog: &DynWatchdog) -> Result<()>
             break;
         }
 
-        // If a whole round changed nothing, every further round would do exactly the same
-        // work and unification would never end. The classes that still hold more than one
-        // expression carry evidence that cannot be reconciled, so they become conflicts.
-        if forest == forest_before_round {
+        // If a round leads back to an earlier state, every further round would repeat the
+        // same work and unification would never end. The classes that still hold more than
+        // one expression carry evidence that cannot be reconciled, so they become conflicts.
+        if !seen_states.insert(forest_fingerprint(&mut forest)) {
             for (ty_var, inferences) in forest.sets() {
                 if inferences.len() > 1 {
                     let conflict = inferences
@@ -582,6 +586,25 @@ pub fn merge(left: TE, right: TE, parent_tv: TypeVariable, state: &mut TypeCheck
         // Nothing else can combine and be valid, so we return a typing conflict
         _ => Merge::expression(TE::conflict(left, right, "Incompatible inferences")),
     }
+}
+
+/// Computes a fingerprint of the state of the `forest`: which values are in which set, and
+/// which expressions each set holds (irrespective of their order).
+fn forest_fingerprint(forest: &mut UnificationForest) -> u64 {
+    let mut hasher = DefaultHasher::new();
+    for value in forest.values() {
+        let root = forest.find(&value);
+        (value, root).hash(&mut hasher);
+    }
+    for (root, inferences) in forest.sets() {
+        let combined = inferences.iter().fold(0u64, |acc, expression| {
+            let mut expression_hasher = DefaultHasher::new();
+            expression.hash(&mut expression_hasher);
+            acc.wrapping_add(expression_hasher.finish())
+        });
+        (root, inferences.len(), combined).hash(&mut hasher);
+    }
+    hasher.finish()
 }
 
 /// The position of `expression` in the fixed order in which the expressions of one
